@@ -273,6 +273,19 @@ class Impl:
             self.dispatcher._cache = {}  # pylint: disable=protected-access
         return "ok"
 
+    def cmd_refilt(self, ts):
+        """The caller assigns another filter to the live dispatcher and touches nothing else (only generated where nothing has been
+        read since the last accepted dispatch: the dispatcher has no per-state memo to go stale)."""
+        if ts == ["none"]:
+            self.filter_tokens = None
+        else:
+            assert ts[0] == "comp"
+            self.filter_tokens = ts[1:]
+        self.dispatcher.ready_operations_filter = self._make_filter()
+        if getattr(self, "sibling", None) is not None:
+            self.sibling.ready_operations_filter = self._make_filter()
+        return "ok"
+
     def cmd_disp(self, ts):
         j, p = int(ts[0]), int(ts[1])
         m = None if ts[2] == "none" else int(ts[2])
